@@ -224,6 +224,9 @@ func (runInfo *runInfoStruct) invokeAddOperator(operator *ast.AddOperator) {
 }
 
 // invokeMultiplyOperator evaluates a multiply operator.
+// maxRepeatLen bounds the length of the result of string * n
+const maxRepeatLen = 1 << 31
+
 func (runInfo *runInfoStruct) invokeMultiplyOperator(operator *ast.MultiplyOperator) {
 	runInfo.expr = operator.LHS
 	runInfo.invokeExpr()
@@ -253,7 +256,14 @@ func (runInfo *runInfoStruct) invokeMultiplyOperator(operator *ast.MultiplyOpera
 				runInfo.rv = nilValue
 				return
 			}
-			runInfo.rv = reflect.ValueOf(strings.Repeat(toString(lhsV), int(count)))
+			str := toString(lhsV)
+			// strings.Repeat panics when the result cannot be allocated
+			if count > 0 && int64(len(str)) > maxRepeatLen/count {
+				runInfo.err = newStringError(operator, "repeat result too large")
+				runInfo.rv = nilValue
+				return
+			}
+			runInfo.rv = reflect.ValueOf(strings.Repeat(str, int(count)))
 			return
 		}
 		if lhsV.Kind() == reflect.Float64 || runInfo.rv.Kind() == reflect.Float64 {
